@@ -336,6 +336,66 @@ def oracle_column_ensemble(case, ctx):
     return discs
 
 
+def oracle_boss_votes(case, ctx):
+    """BOSSEnsemble whose size is capped: the probabilities are the members' vote fractions.
+    Noisy sinusoids of class-specific frequency make window sizes differ in accuracy, so later
+    candidates displace earlier members of the full ensemble."""
+    from sktime.classification.dictionary_based import BOSSEnsemble
+
+    n, t, k, mes = case["n"], case["t"], case["n_classes"], case["mes"]
+    rng = np.random.RandomState(case["seed"] % (2 ** 31 - 1))
+    labs = {"int": [0, 1, 2, 3], "int_gap": [-3, 7, 12, 40], "str": ["b", "a", "zz", "c"]}[case["label_kind"]][:k]
+    cls = np.array([i % k for i in range(n)])
+    tt = np.arange(t)
+
+    def draw_panel(classes):
+        return np.round(np.stack([np.sin(tt * (0.3 + 0.15 * c)) + case["noise"] * rng.randn(t) for c in classes])[:, None, :], 6)
+
+    X, Xn = draw_panel(cls), draw_panel([i % k for i in range(case["n_new"])])
+    y = np.array([labs[c] for c in cls])
+    clf = BOSSEnsemble(max_ensemble_size=mes, random_state=case["rs"])
+    ctx.label("max_ensemble_size=%d" % mes)
+    r = sut(clf.fit, X, y)
+    if isinstance(r, Raised):
+        return [D("fit_raised:boss:%s@%s" % (r.type, r.where), r.msg)]
+    members = list(clf.classifiers)
+    ctx.mark_nontrivial(len(members) == mes)
+    discs = []
+    if len(members) > mes or len(members) == 0:
+        discs.append(D("boss_ensemble_size", "%d members for max_ensemble_size=%d" % (len(members), mes)))
+    for what, data in (("training instances", X), ("unseen instances", Xn)):
+        P = sut(clf.predict_proba, data)
+        if isinstance(P, Raised):
+            return discs + [D("apply_raised:boss.predict_proba:%s@%s" % (P.type, P.where), "%s: %s" % (what, P.msg))]
+        P = np.asarray(P, dtype=float)
+        votes = np.zeros((len(data), k))
+        bad = None
+        for m in members:
+            pm = sut(m.predict, data)
+            if isinstance(pm, Raised):
+                bad = pm
+                break
+            for j, c in enumerate(sorted(set(y.tolist()))):
+                votes[:, j] += np.asarray(pm) == c
+        if bad is not None:
+            return discs + [D("apply_raised:boss.member.predict:%s@%s" % (bad.type, bad.where), bad.msg)]
+        exp = votes / max(len(members), 1)
+        if P.shape != exp.shape or not np.allclose(P.sum(axis=1), 1.0, atol=1e-9):
+            discs.append(D("proba_rows_do_not_sum_to_one:boss", "%s, %d members (max_ensemble_size=%d): row sums %s" % (what, len(members), mes, np.round(P.sum(axis=1)[:4], 6).tolist())))
+        elif not np.allclose(P, exp, atol=1e-9):
+            discs.append(D("boss_proba_not_vote_fractions", "%s: got %s member votes %s" % (what, P[:2].tolist(), exp[:2].tolist())))
+        if discs:
+            break
+    return discs
+
+
+@st.composite
+def boss_cases(draw):
+    return {"n": draw(st.integers(18, 30)), "t": draw(st.sampled_from([32, 40, 48])), "n_classes": draw(st.integers(2, 4)),
+            "mes": draw(st.sampled_from([1, 1, 2, 2, 3, 5])), "noise": draw(st.sampled_from([0.5, 0.7, 0.9, 1.1])), "n_new": 8,
+            "seed": draw(st.integers(0, 10 ** 6)), "rs": draw(st.integers(0, 100)), "label_kind": draw(st.sampled_from(["int", "int_gap", "str"]))}
+
+
 @st.composite
 def wf_cases(draw):
     kind = draw(st.sampled_from(panelpool.CLASSIFIERS))
@@ -392,6 +452,7 @@ def subchecks():
     return [
         SubCheck("well_formed_every_kind", oracle_wellformed, enumerate_cases=enum_wf_every_kind, shards_quick=16, shards_thorough=16, exhaustive=True),
         SubCheck("well_formed", oracle_wellformed, wf_cases(), quick=360, thorough=5000, shards_quick=12, shards_thorough=16),
+        SubCheck("boss_vote_fractions", oracle_boss_votes, boss_cases(), quick=96, thorough=1500, shards_quick=12, shards_thorough=16),
         SubCheck("forest_average_of_trees", oracle_forest, forest_cases(), quick=200, thorough=4000, shards_quick=2, shards_thorough=8),
         SubCheck("column_ensemble_average", oracle_column_ensemble, cec_cases(), quick=200, thorough=3000, shards_quick=2, shards_thorough=8),
     ]
